@@ -298,6 +298,13 @@ type phaseCase struct {
 	Workers   []int     `json:"workers"`
 	ErrCase   bool      `json:"errcase"` // one sequence is too short to be translated in every frame
 	Style     string    `json:"style"`   // how the upper-case DNA was rewritten (RNA, lower case, mixed)
+	Hist      *history  `json:"hist,omitempty"` // the bag was searched / phased once, then edited in place into Seqs
+}
+
+// histRun: what runPhase needs to replay a history (the case as drawn, the derived states)
+type histRun struct {
+	orig phaseCase
+	st   [][]string
 }
 
 var workerCounts = []int{1, 2, 3, 8, 16, 32}
@@ -371,6 +378,9 @@ func genPhase(noErr bool) func(t *rapid.T) phaseCase {
 		c.Workers = []int{1, w}
 		if w2 != 1 && w2 != w {
 			c.Workers = append(c.Workers, w2)
+		}
+		if rapid.IntRange(0, 2).Draw(t, "history") == 0 {
+			c.Hist = genHistory(t, c.Seqs)
 		}
 		return c
 	}
@@ -583,8 +593,13 @@ func (r result) key() string {
 // Phase returns its named error result while the workers already run, and the workers assign that
 // same variable when a sequence fails: in an error case the error may therefore come back from
 // Phase itself, together with a live channel. drainOnErr asks to read the channel in that case too.
-func runPhase(test string, c phaseCase, w int, drainOnErr bool) (res []result, setupErr error, seqsAfter, orfsAfter []gen.Row) {
+func runPhase(test string, c phaseCase, w int, drainOnErr bool, hr *histRun) (res []result, setupErr, histErr error, seqsAfter, orfsAfter []gen.Row) {
 	seqs := gen.BuildBag(gen.Ali{Rows: c.Seqs, Alphabet: "nt"})
+	var guardCase interface{} = c
+	if hr != nil {
+		seqs = gen.BuildBag(gen.Ali{Rows: rowsOf(c.Seqs, hr.st[0]), Alphabet: "nt"})
+		guardCase = hr.orig
+	}
 	var orfs align.SeqBag
 	if len(c.Orfs) > 0 {
 		orfs = gen.BuildBag(gen.Ali{Rows: c.Orfs, Alphabet: "nt"})
@@ -594,10 +609,48 @@ func runPhase(test string, c phaseCase, w int, drainOnErr bool) (res []result, s
 	ph.SetCutEnd(c.CutEnd)
 	ph.SetCpus(w)
 	if e := ph.SetTranslate(c.Translate, codeID(c.Code)); e != nil {
-		return nil, e, nil, nil
+		return nil, e, nil, nil, nil
 	}
-	pbt.Guarded(test, c, pbt.WatchdogLimit(20*time.Second), func() {
+	pbt.Guarded(test, guardCase, pbt.WatchdogLimit(20*time.Second), func() {
 		var ch chan align.PhasedSequence
+		if hr != nil {
+			// first use of the bag in its earlier state. A whole Phase only where the earlier state
+			// is in the domain by construction (both strands searched, edits = reverse complements:
+			// every sequence still holds its ORF copy on one strand); otherwise the ORF search
+			h := hr.orig.Hist
+			onlyRC := true
+			for _, e := range h.Edits {
+				onlyRC = onlyRC && strings.Contains(e.Kind, "rc")
+			}
+			if h.Search == "phase" && c.Reverse && !c.Translate && !c.ErrCase && onlyRC {
+				ph0 := align.NewPhaser()
+				ph0.SetReverse(c.Reverse)
+				ph0.SetCutEnd(c.CutEnd)
+				ph0.SetCpus(w)
+				ph0.SetTranslate(c.Translate, codeID(c.Code))
+				var ch0 chan align.PhasedSequence
+				var e0 error
+				if orfs == nil {
+					ch0, e0 = ph0.Phase(nil, seqs)
+				} else {
+					ch0, e0 = ph0.Phase(orfs, seqs)
+				}
+				if e0 == nil {
+					for range ch0 {
+					}
+				}
+			} else {
+				seqs.LongestORF(h.PriorReverse)
+				seqs.LongestORF(c.Reverse)
+			}
+			if histErr = h.apply(seqs, hr.st); histErr != nil {
+				return
+			}
+			if now := gen.Snapshot(seqs); !gen.SameRows(now, c.Seqs) {
+				histErr = fmt.Errorf("the in-place edits after a first use leave other sequences than the same edits on a fresh bag\n now  : %s\n fresh: %s", gen.Show(now), gen.Show(c.Seqs))
+				return
+			}
+		}
 		if orfs == nil {
 			ch, setupErr = ph.Phase(nil, seqs)
 		} else {
@@ -779,6 +832,31 @@ func judgeResult(c phaseCase, input string, refs []string, r result, o *pbt.Outc
 
 func checkPhase(test string) func(c phaseCase) (pbt.Outcome, error) {
 	return func(c phaseCase) (o pbt.Outcome, err error) {
+		var hr *histRun
+		if c.Hist != nil {
+			// the content to be judged = what a fresh bag holds after the same edits; it must be
+			// the case's sequences up to case / U-T (the complement convention), so that the case
+			// stays inside the generator's domain
+			st := c.Hist.states(c.Seqs)
+			fresh := gen.BuildBag(gen.Ali{Rows: rowsOf(c.Seqs, st[0]), Alphabet: "nt"})
+			if e := c.Hist.apply(fresh, st); e != nil {
+				o.Class("history: edit refused")
+				o.Ambiguous++
+				return o, nil
+			}
+			content := gen.Snapshot(fresh)
+			if !sameFolded(content, c.Seqs) {
+				o.Class("history: edits do not lead back to the sequences")
+				o.Skip = true
+				return o, nil
+			}
+			hr = &histRun{orig: c, st: st}
+			c.Seqs = content
+			o.Class("history: used, edited in place, phased")
+			for _, e := range c.Hist.Edits {
+				o.Class("history edit=%s", e.Kind)
+			}
+		}
 		input := map[string]string{}
 		var plain []string
 		for _, r := range c.Seqs {
@@ -805,7 +883,10 @@ func checkPhase(test string) func(c phaseCase) (pbt.Outcome, error) {
 		maxw := 0
 		misframed := false
 		for wi, w := range c.Workers {
-			res, setupErr, sa, oa := runPhase(test, c, w, c.ErrCase && !noORF)
+			res, setupErr, histErr, sa, oa := runPhase(test, c, w, c.ErrCase && !noORF, hr)
+			if histErr != nil {
+				return o, fmt.Errorf("history: %v", histErr)
+			}
 			if !gen.SameRows(sa, c.Seqs) {
 				return o, fmt.Errorf("input sequences modified by Phase (%d workers)\n now : %s\n were: %s", w, gen.Show(sa), gen.Show(c.Seqs))
 			}
